@@ -781,6 +781,10 @@ func (rp *Replayer) Replay(hs *HarnessSpec, ob *Obligation, all []*HarnessSpec, 
 	so := string(out)
 	ro := ReplayOutcome{Output: so, File: file}
 	switch {
+	case ob.Kind == "assert" && strings.Contains(so, "VSYM-ASSERT-FAILED "+ob.Label+"\n"):
+		// the assertion failed before any later assumption (about symbols created after this
+		// obligation, absent from its model) could end the native run
+		ro.Reproduced = true
 	case strings.Contains(so, "VSYM-ASSUME-FAILED"):
 		ro.Why = "replay does not satisfy the harness assumptions in float64/native arithmetic"
 	case strings.HasPrefix(ob.Label, "fact:") || strings.Contains(ob.Label, "hdf5-call-under-lock") || strings.Contains(ob.Label, "hdf5-write-under-write-lock") || strings.Contains(ob.Label, "lock-discipline"):
@@ -869,7 +873,7 @@ func probeCounterexample(ss *scriptSolver, ob *Obligation, seed int) []Model {
 	}
 	models := []Model{m0}
 	// push every symbol away from the first (typically boundary/zero) model, greedily
-	for _, off := range []string{"1.0", "0.125", "7.0", "100.0"} {
+	for _, off := range []string{"1.0", "25.0"} {
 		extra := ""
 		last := m0
 		for _, v := range syms {
@@ -889,7 +893,7 @@ func probeCounterexample(ss *scriptSolver, ob *Obligation, seed int) []Model {
 						continue
 					}
 				}
-				r, mk := ss.Run(pcOnly+extra+c+"(check-sat)\n", ob.Vars, 2000, seed)
+				r, mk := ss.Run(pcOnly+extra+c+"(check-sat)\n", ob.Vars, 400, seed)
 				if r == "sat" && mk != nil {
 					extra += c
 					last = mk
